@@ -128,7 +128,7 @@ impl Parser {
                     if constructor.is_some() {
                         return Err(vec![new_err(
                             feature_node.as_span(),
-                            &input.user_data().get_file_name(),
+                            &input.user_data().get_source_file_name(),
                             "Cannot have multiple constructors in a class".to_owned(),
                         )]);
                     }
